@@ -18,6 +18,10 @@ CHECKS = {
             'Verus postconditions over the trade sequence (prefix equality + recursive sums)', BOOK_NOTE),
     'C04': ('proof', 'Verus: every public operation ensures the allowed status arrows for every order, immutability of terminal orders and of id/side/trader, dense ids, arrival/end-time rules, '
             'and full observable equality (obs_eq) for redundant requests.', 'Verus per-operation lifecycle postconditions (forall over the order vector)', BOOK_NOTE),
+    'C05': ('proof', 'Verus, proof of the negative: the book unit is verified again with every clock-discipline conjunct removed from the preconditions; every obligation of C01-C04, C06, C07 '
+            'except the key-freshness premise at the six queue-insertion sites is still discharged, and that premise is refuted (genuine defect, recorded in known_findings.json with a history '
+            'replayed on the real code). Any other refuted obligation is a VIOLATION. The environment-level clause (step overrun) is checked by the env unit when claimed.',
+            'Verus on the contract set minus the clock-discipline precondition; known finding', BOOK_NOTE),
     'C06': ('proof', 'Verus: modify_order by cases - no-op, in-place volume reduction with the priority map unchanged, otherwise equality with the reference replace (remove, rewrite, re-match iff trading, '
             're-queue at time t behind equal prices) with id/side/trader/arr_time/start_vol kept; the `<` vs `<=` boundary is its own clause.', 'Verus case-split postconditions on modify/reduce/replace', BOOK_NOTE),
     'C07': ('proof', 'Verus: the index rebuild loop of TryFrom<OrderBookState> re-establishes the full invariant from the order list alone and copies every field, so the loaded book is the unique '
